@@ -62,6 +62,21 @@ class BaseGotranODECodePrinter(StrPrinter):
     def _print_And(self, expr):
         return f"And({', '.join(self._print(a) for a in expr.args)})"
 
+    def _print_Min(self, expr):
+        # The grammar has no Min / Max (sympy.simplify can introduce them in conditions)
+        value = self._print(expr.args[-1])
+        for arg in reversed(expr.args[:-1]):
+            a = self._print(arg)
+            value = f"Conditional(Lt({a}, {value}), {a}, {value})"
+        return value
+
+    def _print_Max(self, expr):
+        value = self._print(expr.args[-1])
+        for arg in reversed(expr.args[:-1]):
+            a = self._print(arg)
+            value = f"Conditional(Gt({a}, {value}), {a}, {value})"
+        return value
+
     def _print_Not(self, expr):
         return f"Not({self._print(expr.args[0])})"
 
